@@ -103,3 +103,33 @@ Definition chk_physics (c : pauli * list pauli * list (N * Q) * list Q) : bool :
   | Ok (_, masks) => all2 (fun mask e => close (expectQ law (decode mask)) e) masks expected
   | _ => false
   end.
+
+(* a case the harness itself found wrong (the independent oracle flagged it, or the implementation made the
+   harness's own bookkeeping impossible): always fails, so that the run judges and reports it *)
+Definition chk_forced (c : nat) : bool := false.
+
+(* end to end: (observables, unique, groups from the oracle, outcome law of each group's register under the harness's
+   simulator, true expectation value of each observable).  The model's collection, lookup, masks and decoding
+   must reproduce every expectation value: mean over the lookup locations of the decoded value. *)
+Open Scope Q_scope.
+Definition mean_close (vals : list Q) (e : Q) : bool :=
+  match vals with
+  | [] => false
+  | _ => close (fold_right Qplus 0 vals / inject_Z (Z.of_nat (length vals))) e
+  end.
+Close Scope Q_scope.
+
+Definition chk_e2e (c : list pauli * list pauli * list (list pauli) * list (list (N * Q)) * list Q) : bool :=
+  let '(obs, u, gs, laws, expected) := c in
+  match collection obs (mkOracle u gs) with
+  | Ok (cogs, lk) =>
+      all2 (fun p e =>
+              match lookup_find p lk with
+              | Some locs =>
+                  mean_close (map (fun ij => expectQ (nth (fst ij) laws [])
+                                               (decode (nth (snd ij) (cg_masks (nth (fst ij) cogs (mkCog (mkP 0 []) [] [] []))) 0%N)))
+                                  locs) e
+              | None => false
+              end) obs expected
+  | _ => false
+  end.
